@@ -319,7 +319,15 @@ def derive_event(rng):
     labels, absent = rand_labels(rng, kind)
     cls = rng.choice(SRC_CLS[kind])
     ix = cls(py(labels))
-    if cls in (sf.IndexGO, sf.IndexDateGO) and labels and rng.random() < 0.5:
+    if kind == 'i' and rng.random() < 0.3:
+        # an auto-integer (map-less) source holding 0..n-1: whatever is derived from it by a key that is not the leading run of positions
+        # holds OTHER labels than its positions and needs a real map (lookup and membership of the result are observed)
+        n = rng.randint(0, 7)
+        labels = [['i', i] for i in range(n)]
+        absent = [['i', n], ['i', n + 3], ['i', 50]]
+        cls = rng.choice([sf.Index, sf.IndexGO])
+        ix = rng.choice([lambda: cls(range(n), loc_is_iloc=True), lambda: (sf.Series(np.arange(n)).index if cls is sf.Index else sf.FrameGO(np.zeros((1, n))).columns)])()
+    if cls in (sf.IndexGO, sf.IndexDateGO) and labels and rng.random() < 0.5 and ix._map is not None:
         # a grown source: the last label arrives by append, so the derivation starts from a stale cache
         ix = cls(py(labels[:-1]))
         ix.append(P.dec(labels[-1]))
@@ -372,7 +380,7 @@ def hier_event(rng):
     for o in outer:
         for i in rng.sample([['i', 1], ['i', 2], ['i', 3]], rng.randint(1, 3)):
             rows.append(['t', [o, i]])
-    if rng.random() < 0.3:
+    if rng.random() < 0.5:
         # depth 3, ragged, second-level labels not repeated under different outer labels (so that an outer level can be dropped):
         # the levels that stay must be re-linked (positions after the first branch), observed through lookup, values and iteration
         rows, second = [], 0
@@ -381,12 +389,15 @@ def hier_event(rng):
                 second += 1
                 for x in rng.sample([['s', 'x'], ['s', 'y'], ['s', 'z']], rng.randint(1, 3)):
                     rows.append(['t', [o, ['i', second], x]])
+        if rng.random() < 0.5:
+            # depth 4: every depth-3 label fans out into one or two leaves (an inner drop then shrinks sub-trees below the root's children)
+            rows = [['t', r[1] + [leaf]] for r in rows for leaf in rng.sample([['s', 'r'], ['s', 's']], rng.randint(1, 2))]
         ih3 = sf.IndexHierarchy.from_labels([P.dec(r) for r in rows])
         if rng.random() < 0.3:
             ih3 = sf.IndexHierarchyGO(ih3)
         if rng.random() < 0.5:
             ih3.values          # with and without a materialised label table
-        route = rng.choice(['ih_level_drop_outer', 'ih_level_drop_outer', 'ih_level_drop_inner', 'ih_copy'])
+        route = rng.choice(['ih_level_drop_outer', 'ih_level_drop_inner', 'ih_level_drop_inner', 'ih_copy'])
         fn = {'ih_level_drop_outer': lambda: ih3.level_drop(1), 'ih_level_drop_inner': lambda: ih3.level_drop(-1), 'ih_copy': lambda: ih3.copy()}[route]
         return {'kind': 'derive', 'route': route, 'src': rows, 'arg': ['none'], 'cls': type(ih3).__name__, 'obs': attempt(fn)}
     ih = sf.IndexHierarchy.from_labels([P.dec(r) for r in rows])
@@ -687,18 +698,15 @@ def main(ctx):
         elif q < 0.72:
             events.append(isolation_event(rng))
             ctx.count('V_isolation')
-        elif q < 0.78:
+        elif q < 0.81:
             events.append(hier_event(rng))
             ctx.count('V_hier')
-        elif q < 0.82:
+        elif q < 0.84:
             events.append(hier_ctor_event(rng))
             ctx.count('V_hier_ctor')
-        elif q < 0.85:
+        elif q < 0.87:
             events.append(unit_ctor_event(rng))
             ctx.count('V_unit_ctor')
-        elif q < 0.86:
-            events.append(isolation_event(rng))
-            ctx.count('V_isolation')
         else:
             events += go_history(rng, 0)
             ctx.count('V_go_histories')
